@@ -27,7 +27,7 @@ EXPLANATION = (
     "entropy, fluxes and the Tn boundary (independent xi-integrator) at the returned "
     "velocity; window scans for both sentinels.")
 
-MARGIN_V = 1e-2          # scans run over [vMin + MARGIN_V, vJ - MARGIN_TOP]
+MARGIN_V = 1e-2          # scans run over [max(vMin + MARGIN_V, S.SLOW_WALL), vJ - MARGIN_TOP]
 MARGIN_TOP = 1e-3
 MARGIN_E = 3e-4          # |mismatch| at the decisive end below this: too close to a threshold
 TOL_ENT = 1e-9           # T+ g+ = T- g- at the LTE matching (by construction of v+)
@@ -467,13 +467,14 @@ def mismatch(hy, vw):
 
 
 def scan(ctx, hy, n):
-    lo, hi = hy.vMin + MARGIN_V, hy.vJ - MARGIN_TOP
+    lo, hi = S.window_lo(hy), hy.vJ - MARGIN_TOP
     if not lo < hi:
         return []
     out = []
     for i in range(n):
         v = lo + (hi - lo) * i / (n - 1)
         out.append((v, mismatch(hy, v)))
+        ctx.count("scan_velocity")
     return out
 
 
@@ -485,7 +486,7 @@ def check_lte(ctx, spec, rtol=1e-6, atol=1e-10, gated=True):
     except Exception as ex:
         ctx.count("eos_skipped", spec)
         return fails, None
-    if not hy.vMin + MARGIN_V < hy.vJ - 2e-2:
+    if not S.window_lo(hy) < hy.vJ - 2e-2:
         ctx.count("eos_no_window", spec)
         return fails, None
     Tn = th.Tnucl
@@ -568,7 +569,7 @@ def check_lte(ctx, spec, rtol=1e-6, atol=1e-10, gated=True):
                                                          vals[0][0], spec),
                     dict(kind="runaway", vw=v, **case), "runaway-sign:" + spec["kind"]))
     elif res == 0:
-        lo = hy.vMin + MARGIN_V
+        lo = S.window_lo(hy)
         E = mismatch(hy, lo)
         if E is None:
             ctx.count("lte_static_unscannable", case)
@@ -618,7 +619,7 @@ def direct(ctx, proved):
     # the repo's own tests run with atol = 1e-6: diagnostics, gated only when listed
     cand = []
     diag = [s for s in sp if s["kind"] == "bag"]
-    for spec in diag[1:48:ctx.n(4, 1)] + diag[48:ctx.n(50, 175)]:
+    for spec in diag[1:48:ctx.n(3, 1)] + diag[48:ctx.n(50, 175)]:
         try:
             fails, _mc = check_lte(ctx, spec, rtol=1e-6, atol=1e-6)
         except Exception:
@@ -665,6 +666,7 @@ def run(ctx):
                    "src/WallGo/helpers.py"], sha=[vlib.sha(s) for s in srcs],
             spans=info["spans"], preconditions=info["preconditions"], facts=info["facts"]))
         ftext, facts = gen_hydro_shock.generate_lte_facts(srcs[0])
+        facts["manager"] = gen_hydro_shock.manager_lte_fact(vlib.read_src("manager.py"))
         ctx.write("LteFacts.v", ftext, sources=dict(file="src/WallGo/hydrodynamics.py",
                                                     facts=facts))
     except pyrx.TranslateError as e:
@@ -694,8 +696,8 @@ def run(ctx):
         "template EOS (random alpha_n, psi_n, cs2, cb2; Tn in {0.01, 1, 100}); default solver "
         "tolerances 1e-6/1e-10. Interior results: entropy, energy/momentum flux, Tn boundary "
         "(independent integrator) at the returned velocity, entropy of findMatching there. "
-        "Sentinels: mismatch scanned at %d velocities over [vMin+%g, vJ-%g] (runaway) / "
-        "evaluated at vMin+%g (static). Parameter points whose mismatch at the decisive end "
+        "Sentinels: mismatch scanned at %d velocities over [max(vMin+%g, 0.05), vJ-%g] (runaway)"
+        " / evaluated at max(vMin+%g, 0.05) (static). Parameter points whose mismatch at the decisive end "
         "is below %g are counted as near-threshold and not judged. distinct = distinct (EOS, "
         "tolerances)." % (ctx.n(64, 512), MARGIN_V, MARGIN_TOP, MARGIN_V, MARGIN_E))
     ctx.assumptions += [
